@@ -29,6 +29,12 @@ class Module:
             self.tree = ast.parse(source, filename=relpath)
         except SyntaxError as e:  # a tree that does not parse does not "compile"
             raise AnalysisError(f"syntax error in {relpath}: {e}")
+        if os.environ.get("POLARLINT_NO_CANON") != "1":
+            from .canon import canonicalise
+            try:
+                self.tree = canonicalise(self.tree)
+            except Exception:      # the canonical form is a convenience; the raw tree is always analysable
+                self.tree = ast.parse(source, filename=relpath)
         name = relpath[:-3].replace("/", ".")
         if name.endswith(".__init__"):
             name = name[: -len(".__init__")]
